@@ -23,6 +23,14 @@ MODELS = {
                              'CONSTANTS RNodes = {"r1", "r2"}\nRMode = "ok"\n', "holds"),
     "RandomRealization:redraw-mutant": ("RandomRealization", 'SPECIFICATION RSpec\nINVARIANT OneRealization\nCHECK_DEADLOCK FALSE\n'
                                         'CONSTANTS RNodes = {"r1", "r2"}\nRMode = "redraw"\n', "violates:OneRealization"),
+    "XarrayOptIn:ok": ("XarrayOptIn", 'SPECIFICATION XSpec\nINVARIANT OptIn\nCHECK_DEADLOCK FALSE\n'
+                       'CONSTANTS XModules = {"dask_array", "dask_array._xarray", "dask_array.xarray", "dask_array._rechunk"}\nXMode = "ok"\n', "holds"),
+    "XarrayOptIn:eager-mutant": ("XarrayOptIn", 'SPECIFICATION XSpec\nINVARIANT OptIn\nCHECK_DEADLOCK FALSE\n'
+                                 'CONSTANTS XModules = {"dask_array", "dask_array._xarray", "dask_array.xarray"}\nXMode = "eager"\n',
+                                 "violates:OptIn"),
+    "TreeReduce:all-trees": ("TreeReduce", 'SPECIFICATION TRSpec\nINVARIANT TreeIndependent\nCHECK_DEADLOCK FALSE\n'
+                             'CONSTANTS TRKinds = {"sum", "nansum", "max", "min", "any", "all", "mean", "nanmean", "var", "argmax"}\n'
+                             'TRLen = 5\nTRVals = {0, 1, 3, 99}\nTRSplit = 3\n', "holds"),
     "MapBlocksInfo:exact": ("MC_MapBlocksInfo", 'SPECIFICATION MBSpec\nINVARIANT SeenOnGrid\nINVARIANT Exact\nCHECK_DEADLOCK FALSE\n'
                             'CONSTANTS MBLayouts <- MCLayouts\nMBRecs <- MCRecs\n', "holds"),
 }
